@@ -38,12 +38,12 @@ def gen_config(rng, color_format, allow_transform=True, reuse=None):
     return cfg
 
 
-def gen_sources(rng, n=None, solid_only=False, allow_groups=True, allow_special=True, first_cp=0x1F600, var_opaque=False, stress=False, share=True):
+def gen_sources(rng, n=None, solid_only=False, allow_groups=True, allow_special=True, first_cp=0x1F600, var_opaque=False, stress=False, share=True, viewbox=None):
     n = n or rng.randint(1, 5)
     pool = [] if share else None
     docs, srcs = [], []
     for i in range(n):
-        doc = svggen.gen_doc(rng, pool, solid_only=solid_only, allow_groups=allow_groups, allow_special=allow_special, var_opaque=var_opaque, stress=stress)
+        doc = svggen.gen_doc(rng, pool, solid_only=solid_only, allow_groups=allow_groups, allow_special=allow_special, var_opaque=var_opaque, stress=stress, viewbox=viewbox(rng) if callable(viewbox) else viewbox)
         cps = (first_cp + i,)
         docs.append(doc)
         srcs.append((build.filename_for(cps, rng.choice([0, 1])), doc.to_svg(), cps))
